@@ -23,6 +23,8 @@ import (
 	"github.com/enfein/mieru/v3/pkg/appctl/appctlpb"
 	"github.com/enfein/mieru/v3/pkg/common"
 	"github.com/enfein/mieru/v3/pkg/protocol"
+	"github.com/enfein/mieru/v3/pkg/stderror"
+	"github.com/enfein/mieru/v3/pkg/verifhook"
 	"google.golang.org/protobuf/encoding/protojson"
 	"google.golang.org/protobuf/proto"
 
@@ -74,6 +76,19 @@ type FaultRule struct {
 	used int
 }
 
+// Gate holds a goroutine of the real code at a hook point (tag verif) until
+// a named signal is given by a programme ("sig" op) or Ms virtual milliseconds pass.
+type Gate struct {
+	Point string `json:"point"`
+	Ep    string `json:"ep"`
+	S     int    `json:"s"`
+	Nth   int    `json:"nth"` // which occurrence (1-based); 0 = every
+	Until string `json:"until"`
+	Ms    int    `json:"ms"`
+	Reach string `json:"reach"` // signal closed when the gate is reached
+	count int
+}
+
 // Tamper describes one wire mutation.
 type Tamper struct {
 	Dir  string `json:"dir"`  // "C2S" or "S2C"
@@ -100,8 +115,9 @@ type Scenario struct {
 	Multiplex int           `json:"multiplex"`
 	LimitSec  int           `json:"limit"`   // virtual seconds before the run is declared stalled
 	Seed      int64         `json:"seed"`
-	NoTxLog   bool          `json:"notx"`
+	NoTxLog   int           `json:"notx"` // 1: omit delivered acks; 2: omit every wire event that met no fault
 	Linger    int           `json:"linger"`
+	Gates     []*Gate       `json:"gates"`
 	Expect    string        `json:"expect"`  // "complete": every byte written must be read and the run must not stall  // virtual ms to keep muxes alive after programmes end
 }
 
@@ -189,8 +205,7 @@ func errClass(err error) string {
 	if err == io.EOF {
 		return "EOF"
 	}
-	var ne net.Error
-	if errors.As(err, &ne) && ne.Timeout() {
+	if stderror.IsTimeout(err) {
 		return "timeout"
 	}
 	s := err.Error()
@@ -426,7 +441,7 @@ func Run(sc *Scenario) (res *Result) {
 					e.A = regionOf(seg, tm.Off)
 				}
 			}
-			if !sc.NoTxLog || e.Fate != "deliver" || !refcodec.IsAck(uint8(e.Pt)) {
+			if sc.NoTxLog == 0 || e.Fate != "deliver" || (sc.NoTxLog == 1 && !refcodec.IsAck(uint8(e.Pt))) {
 				rec.add(e)
 			}
 			return f
@@ -444,6 +459,9 @@ func Run(sc *Scenario) (res *Result) {
 			ws.mu.Unlock()
 			if !ok {
 				idx = -1
+			}
+			if sc.NoTxLog == 2 {
+				return
 			}
 			rec.add(Event{Ev: "Rx", Ep: epOf(to.IP), S: idx, Pt: int(seg.Meta.Type), Seq: int64(seg.Meta.Seq), Off: -1, Ok: true})
 		}
@@ -470,7 +488,7 @@ func Run(sc *Scenario) (res *Result) {
 				ws.mu.Unlock()
 				e.Fate = "deliver"
 				e.A = conn
-				if !sc.NoTxLog || !refcodec.IsAck(uint8(e.Pt)) {
+				if sc.NoTxLog == 0 || (sc.NoTxLog == 1 && !refcodec.IsAck(uint8(e.Pt))) {
 					rec.add(e)
 				}
 			}
@@ -557,6 +575,45 @@ func Run(sc *Scenario) (res *Result) {
 			sigs[name] = c
 		}
 		return c
+	}
+	if len(sc.Gates) > 0 {
+		var gmu sync.Mutex
+		verifhook.Set(func(point string, id uint32, kv ...int64) {
+			ep := "S"
+			if len(kv) > 0 && kv[0] == 1 {
+				ep = "C"
+			}
+			ws.mu.Lock()
+			idx, ok := ws.sidIdx[id]
+			ws.mu.Unlock()
+			if !ok {
+				return
+			}
+			var hit *Gate
+			gmu.Lock()
+			for _, g := range sc.Gates {
+				if g.Point == point && g.Ep == ep && g.S == idx {
+					g.count++
+					if g.Nth == 0 || g.Nth == g.count {
+						hit = g
+					}
+				}
+			}
+			gmu.Unlock()
+			if hit == nil {
+				return
+			}
+			rec.add(Event{Ev: "Gate", Ep: ep, S: idx, Err: point, Off: -1})
+			if hit.Reach != "" {
+				close(sig(hit.Reach))
+			}
+			if hit.Until != "" {
+				<-sig(hit.Until)
+			} else if hit.Ms > 0 {
+				time.Sleep(time.Duration(hit.Ms) * time.Millisecond)
+			}
+		})
+		defer verifhook.Set(nil)
 	}
 	serverConns := make([]chan net.Conn, len(sc.Sessions))
 	for i := range serverConns {
@@ -678,6 +735,7 @@ func runProg(rec *recorder, ep string, idx int, conn net.Conn, ops []Op, roff0 i
 	var woff int64
 	roff := roff0
 	closed := false
+	timeouts := 0
 	read := func(buf []byte) (int, error) {
 		n, err := conn.Read(buf)
 		ok := true
@@ -713,6 +771,11 @@ func runProg(rec *recorder, ep string, idx int, conn net.Conn, ops []Op, roff0 i
 					b = b[:want]
 				}
 				if _, err := read(b); err != nil {
+					// a time-out is not the end of the stream: the application reads again
+					if stderror.IsTimeout(err) && timeouts < 100 {
+						timeouts++
+						continue
+					}
 					break
 				}
 			}
@@ -724,6 +787,10 @@ func runProg(rec *recorder, ep string, idx int, conn net.Conn, ops []Op, roff0 i
 			buf := make([]byte, bs)
 			for {
 				if _, err := read(buf); err != nil {
+					if stderror.IsTimeout(err) && timeouts < 100 {
+						timeouts++
+						continue
+					}
 					break
 				}
 			}
@@ -738,6 +805,10 @@ func runProg(rec *recorder, ep string, idx int, conn net.Conn, ops []Op, roff0 i
 		case "dl":
 			conn.SetDeadline(time.Now().Add(time.Duration(op.Int(1)) * time.Millisecond))
 			rec.add(Event{Ev: "Dl", Ep: ep, S: idx, N: op.Int(1), Off: -1})
+		case "before":
+			// progress mark: this point of the programme must be reached within op[1] virtual ms
+			el := time.Since(rec.start).Milliseconds()
+			rec.add(Event{Ev: "Mark", Ep: ep, S: idx, N: op.Int(1), Ok: el <= int64(op.Int(1)), Off: -1})
 		case "sig":
 			close(sig(op.Str(1)))
 		case "wait":
